@@ -220,10 +220,10 @@ ADDENDA = {
                           "latency.Latency (LatencyTrace) and concurrent executions under the race detector (CacheConcTrace)"),
     "C16": dict(text=" Requests naming a dialer the manager does not have are generated (a dial that fails at once); ConnectionTrace tracks the identity of the last failed dial so that a failed entry "
                      "that lingers is rejected; Connection.tla has a third mutant (bad_dialer_lingers)."),
-    "C17": dict(text=" Revisions are also spread over the whole int64 range (record revisions are ranks - the specification only compares - and far-stale configurations come back). Request names may coincide with target names (independent key spaces)."),
+    "C17": dict(text=" Request contents sit in different parts of the SubscribeRequest (subscription list, a registered extension, Subscribe vs Poll), so that an edit of any part must be noticed. Revisions are also spread over the whole int64 range (record revisions are ranks - the specification only compares - and far-stale configurations come back). Request names may coincide with target names (independent key spaces)."),
     "C18": dict(text=" Also: Subscribe contexts that carry a deadline (Subscribe returns by itself, Close afterwards), and a further Subscribe on a client that has been closed (must return). Attempts may fail with errors that wrap context.Canceled/DeadlineExceeded while the client's context is alive, and ReconnectTrace requires that Subscribe does not return before Close "
                      "has been called (keeps resubscribing); the real-Impl scenarios include unreachable targets (silent listener, refused port) with a 30 s connection timeout, during which Close must return promptly."),
-    "C20": dict(text=" Configurations may contain an explicit sync value written like the injected marker. String-list (leaf-list) values - random sub-lists or rotating options - are generated and specified. Second stage: the repository's own fake gNMI agent (testing/fake/gnmi agent.go/client.go, "
+    "C20": dict(text=" Half of the scenarios use nanosecond-since-epoch timestamps (1.7e18 + small; logged minus the base). Configurations may contain an explicit sync value written like the injected marker. String-list (leaf-list) values - random sub-lists or rotating options - are generated and specified. Second stage: the repository's own fake gNMI agent (testing/fake/gnmi agent.go/client.go, "
                      "which builds the queue and injects the sync marker itself) streams further configurations over gRPC, twice each, and the responses read off the wire are validated by the same specification.",
                 note=[("string-list values and FixedQueue are not covered", "the FixedQueue is not covered; the agent stage uses STREAM subscriptions without delays")]),
 }
